@@ -15,7 +15,11 @@
 //
 // Operations (O):  blob_put:<L>[:nd|:ns]  blob_bad:<claimed>:<sent>:digest|size  man_bad:<refobj>:<M>  put_tag:<tag>:<M>  put_digest:<M>  put_child:<M>  put_index:<tag>:<IX>
 // put_ref:<tag>:<A>  put_refd:<A>  tag_delete:<tag>  man_delete:<M>  blob_delete:<L>  retag:<tag>:<oldtag>  copy:<tag>:<srctag>
-// copy_ref:<tag>:<srctag>  import:<tag>:<tarname> ; the suffix "~rel" spells the target
+// copy_ref:<tag>:<srctag>  import:<tag>:<tarname>  rcopy:<tag>:<srctag> (ImageCopy from a REGISTRY - the in-process model registry
+// zzverif/simreg holding the same catalogue - into the layout) ; the suffix "~c<k>" CANCELS the caller's context when
+// the k-th registry request of the copy arrives (the process lives on and returns through its error path), "~e<k>" lets
+// request k fail with a connection error, "~h<k>" answers it with status 500, "~t<k>" cuts its reply body short;
+// the suffix "~rel" spells the target
 // layout with a relative path, "~td" gives the tagged put a reference with tag and digest; the suffix "+gc" calls rc.Close (garbage collection)
 // after the operation, like regctl does.
 package main
@@ -28,19 +32,27 @@ import (
 	"crypto/sha512"
 	"encoding/hex"
 	"encoding/json"
+	"errors"
 	"flag"
 	"fmt"
 	"io"
+	"log/slog"
 	"os"
 	"path/filepath"
 	"sort"
+	"strconv"
 	"strings"
 	"sync"
+	"sync/atomic"
+	"time"
 
 	"github.com/regclient/regclient"
+	"github.com/regclient/regclient/config"
+	"github.com/regclient/regclient/scheme/reg"
 	"github.com/regclient/regclient/types/descriptor"
 	"github.com/regclient/regclient/types/manifest"
 	"github.com/regclient/regclient/types/ref"
+	"github.com/regclient/regclient/zzverif/simreg"
 	"github.com/regclient/regclient/zzverif/vtrace"
 
 	"github.com/opencontainers/go-digest"
@@ -371,6 +383,71 @@ func putParts(ctx context.Context, rc *regclient.RegClient, dir, name string) er
 	return nil
 }
 
+// ---------------------------------------------------------------- registry source (model registry, in process)
+
+const srcHost = "src.c07.test"
+
+// interruption of the traced first attempt of an rcopy (set in main from the "~c<k>" ... suffixes): what happens
+// when the k-th request reaches the source registry. 0 = nothing.
+var intrKind byte
+var intrAt int
+var nreq atomic.Int64 // requests the last rcopy sent to the source registry
+
+// regSource builds a model registry holding the catalogue (repository "c07", the tags of the source layout) and a
+// client that reaches it without any socket.
+func regSource() (*regclient.RegClient, *simreg.Net) {
+	net := simreg.NewNet()
+	h := net.AddHost(srcHost, simreg.DefaultFeatures())
+	for _, n := range catOrder {
+		o := cat[n]
+		switch o.Kind {
+		case "layer", "config":
+			h.PutBlob("c07", o.data)
+		default:
+			tag := ""
+			for t, on := range map[string]string{"m1": "M1", "m2": "M2", "m3": "M3", "ix": "IX", "ib": "IB", "in": "IN"} {
+				if on == n {
+					tag = t
+				}
+			}
+			h.PutManifest("c07", tag, o.MediaType, o.data)
+		}
+	}
+	rc := regclient.New(
+		regclient.WithConfigHost(config.Host{Name: srcHost, Hostname: srcHost, TLS: config.TLSDisabled}),
+		regclient.WithRegOpts(reg.WithHTTPClient(net.Client()), reg.WithDelay(time.Millisecond, 5*time.Millisecond)),
+		regclient.WithSlog(slog.New(slog.NewTextHandler(io.Discard, nil))),
+	)
+	return rc, net
+}
+
+// arm installs the interruption: the request with sequence number intrAt cancels the caller's context and is held
+// until the client hangs up ('c'), fails with a connection error ('e'), is answered 500 ('h') or is served with its
+// body cut after 10 bytes ('t'). Only that one request is touched; a cancelled context stays cancelled.
+func arm(net *simreg.Net, cancel context.CancelFunc) {
+	if intrKind == 0 {
+		return
+	}
+	net.Host(srcHost).Intercept = func(rq *simreg.Request) *simreg.Reply {
+		if rq.Seq != intrAt {
+			return nil
+		}
+		switch intrKind {
+		case 'c':
+			cancel()
+			<-rq.Ctx.Done()
+			return &simreg.Reply{Err: rq.Ctx.Err()}
+		case 'e':
+			return &simreg.Reply{Err: errors.New("read tcp: connection reset by peer")}
+		case 'h':
+			return &simreg.Reply{Status: 500, Body: []byte(`{"errors":[{"code":"UNKNOWN","message":"c07"}]}`)}
+		case 't':
+			return &simreg.Reply{ServeThenTruncate: true, TruncateAt: 10}
+		}
+		return nil
+	}
+}
+
 func runOp(ctx context.Context, rc *regclient.RegClient, dir, src, op string) (err error) {
 	defer func() {
 		if p := recover(); p != nil {
@@ -468,6 +545,21 @@ func runOp(ctx context.Context, rc *regclient.RegClient, dir, src, op string) (e
 			opts = append(opts, regclient.ImageWithReferrers())
 		}
 		err = rc.ImageCopy(ctx, tref(src, arg(2)), closeRef, opts...)
+	case "rcopy":
+		// ImageCopy from a registry into the layout; the context handed to the copy can be cancelled by the source
+		// registry at a chosen request (the caller's ctrl-c / deadline), the client and the process live on
+		closeRef = tref(dir, arg(1))
+		var net *simreg.Net
+		rc, net = regSource()
+		cctx, cancel := context.WithCancel(ctx)
+		defer cancel()
+		arm(net, cancel)
+		var rs ref.Ref
+		if rs, err = ref.New(srcHost + "/c07:" + arg(2)); err != nil {
+			break
+		}
+		err = rc.ImageCopy(cctx, rs, closeRef)
+		nreq.Store(int64(len(net.Log())))
 	case "import":
 		closeRef = tref(dir, arg(1))
 		var fh *os.File
@@ -820,12 +912,16 @@ func main() {
 				case "s512":
 					tag512 = true
 				default:
-					fatal(fmt.Errorf("unknown spelling variant %q", v))
+					k, errK := strconv.Atoi(v[1:])
+					if errK != nil || k < 1 || !strings.ContainsRune("ceht", rune(v[0])) {
+						fatal(fmt.Errorf("unknown variant %q", v))
+					}
+					intrKind, intrAt = v[0], k
 				}
 			}
 		}
 		err := runOp(ctx, regclient.New(), *dir, *src, *op)
-		r := map[string]any{"ok": 1, "err": ""}
+		r := map[string]any{"ok": 1, "err": "", "nreq": nreq.Load()}
 		if err != nil {
 			r["ok"] = 0
 			r["err"] = err.Error()
